@@ -777,7 +777,11 @@ fn main() {
     bump(&mut stats, "dao_pack_cases", n_arith as u64);
 
     // ---- stream 3: calculate_maximum_withdraw on forged headers ----------------------
+    // (a zero deposit rate makes the real function panic with a division by zero: keep the output quiet)
+    let hook = std::panic::take_hook();
+    std::panic::set_hook(Box::new(|_| {}));
     withdraw_stream(&mut rng, if thorough { 4000 } else { 600 }, &mut files, &mut descs, &mut viol, &mut stats, &mut evaluations);
+    std::panic::set_hook(hook);
 
     for (i, cf) in files.iter().enumerate() {
         cf.write().unwrap();
